@@ -27,6 +27,7 @@ type c18Op struct {
 	Rw   *RwSpec    `json:"rw,omitempty"`
 	Addr string     `json:"addr,omitempty"`
 	Set  []string   `json:"set,omitempty"` // modRoute/modDest: which options the command names
+	Bad  bool       `json:"invalid_regex,omitempty"` // modRoute/modDest: one of several named options has a value that does not compile: the command must fail and change nothing
 }
 
 type c18Plan struct {
@@ -195,6 +196,23 @@ func scenC18(x *Exec) {
 			}
 			if len(op.Set) == 0 {
 				op.Set = []string{filterKeys[g.Pick(6)]}
+			}
+			if g.Bool(0.15) {
+				// several options at once, one of them unusable: all or nothing
+				op.Bad = true
+				op.Set = nil
+				for _, k := range filterKeys[:4] {
+					if g.Bool(0.6) {
+						op.Set = append(op.Set, k)
+					}
+				}
+				if g.Bool(0.5) {
+					op.F.Regex = "a(b"
+					op.Set = append(op.Set, "regex")
+				} else {
+					op.F.NotRegex = "x[y"
+					op.Set = append(op.Set, "notRegex")
+				}
 			}
 		}
 		p.Ops = append(p.Ops, op)
@@ -380,12 +398,14 @@ func scenC18(x *Exec) {
 					}
 					err = bt.T.DelRewriter(op.Idx)
 				case "modRoute":
-					if i := find(op.Key); i >= 0 {
+					if i := find(op.Key); i >= 0 && !op.Bad {
 						cur.Routes[i].F = mergeFilter(cur.Routes[i].F, op.F, op.Set)
 					} else {
 						wantErr = true
 					}
-					if c, ok := caps[op.Key]; ok && find(op.Key) >= 0 {
+					if c, ok := caps[op.Key]; ok && find(op.Key) >= 0 && op.Bad {
+						_, err = mkMatcher(mergeFilter(cur.Routes[find(op.Key)].F, op.F, op.Set))
+					} else if ok && find(op.Key) >= 0 {
 						// capture routes are harness objects: swap their (real) matcher under the same protocol
 						m, _ := mkMatcher(cur.Routes[find(op.Key)].F)
 						c.m = &m
@@ -394,7 +414,7 @@ func scenC18(x *Exec) {
 					}
 				case "modDest":
 					i := find(op.Key)
-					if i >= 0 && cur.Routes[i].Type != "capture" && op.Idx < len(cur.Routes[i].Dests) {
+					if i >= 0 && cur.Routes[i].Type != "capture" && op.Idx < len(cur.Routes[i].Dests) && !op.Bad {
 						cur.Routes[i].Dests[op.Idx].F = mergeFilter(cur.Routes[i].Dests[op.Idx].F, op.F, op.Set)
 					} else {
 						wantErr = true
